@@ -459,12 +459,21 @@ class DependencyStatus(object):
         # save reason task is not up-to-date
         self.reasons = defaultdict(list)
         self.error_reason = None
+        # the first reason decides the status (that is where processing
+        # is interrupted if not get_log), later reasons are only logged
+        self._final = False
+
+    def _set_status(self, status):
+        """set status unless it was already decided by a previous reason"""
+        if not self._final:
+            self.status = status
+            self._final = True
 
     def add_reason(self, reason, arg, status='run'):
         """sets state and append reason for not being up-to-date
         :return boolean: processing should be interrupted
         """
-        self.status = status
+        self._set_status(status)
         if self.get_log:
             self.reasons[reason].append(arg)
         return not self.get_log
@@ -473,7 +482,7 @@ class DependencyStatus(object):
         """sets state and reason for not being up-to-date
         :return boolean: processing should be interrupted
         """
-        self.status = 'run'
+        self._set_status('run')
         if self.get_log:
             self.reasons[reason] = arg
         return not self.get_log
@@ -699,8 +708,10 @@ class Dependency(object):
             if get_log:
                 added_files = sorted(list(task.file_dep - previous_set))
                 removed_files = sorted(list(previous_set - task.file_dep))
-                result.set_reason('added_file_dep', added_files)
-                result.set_reason('removed_file_dep', removed_files)
+                # only logged: does not decide the status, a missing
+                # file_dep (below) is still an error
+                result.reasons['added_file_dep'] = added_files
+                result.reasons['removed_file_dep'] = removed_files
             result.status = 'run'
 
         # list of file_dep that changed
